@@ -31,6 +31,11 @@ type Entry struct {
 	Run   func(rs *mon.RS) string
 }
 
+// entryRaw holds, per entry name, the library call alone, its result discarded unformatted (C14
+// measures this: building the observation string of a result with tens of thousands of items is
+// the harness's cost).
+var entryRaw map[string]func(rs *mon.RS)
+
 func exifObs(e exif2.Exif, err error) string {
 	return "err=" + obs.Err(err) + "\n" + obs.Exif(e).String()
 }
@@ -221,6 +226,28 @@ func Entries() []Entry {
 			return fmt.Sprintf("a=%s b=%s", obs.Bytes(a), obs.Bytes(b))
 		}},
 	}
+	raw := map[string]func(rs *mon.RS){
+		"Decode":                  func(rs *mon.RS) { _, _ = imagemeta.Decode(rs) },
+		"DecodeTiff":              func(rs *mon.RS) { _, _ = imagemeta.DecodeTiff(rs) },
+		"DecodeCR2":               func(rs *mon.RS) { _, _ = imagemeta.DecodeCR2(rs) },
+		"DecodeHeif":              func(rs *mon.RS) { _, _ = imagemeta.DecodeHeif(rs) },
+		"DecodeJPEG":              func(rs *mon.RS) { _, _ = imagemeta.DecodeJPEG(rs) },
+		"DecodePng":               func(rs *mon.RS) { _, _ = imagemeta.DecodePng(rs) },
+		"DecodeCR3":               func(rs *mon.RS) { _, _ = imagemeta.DecodeCR3(rs) },
+		"PreviewCR3":              func(rs *mon.RS) { _, _ = imagemeta.PreviewCR3(rs) },
+		"exif2.Parse":             func(rs *mon.RS) { _, _ = exif2.Parse(rs) },
+		"jpeg.ScanJPEG/nil":       func(rs *mon.RS) { _ = jpeg.ScanJPEG(rs, nil, nil) },
+		"tiff.ScanTiffHeader":     func(rs *mon.RS) { _, _ = tiff.ScanTiffHeader(rs, imagetype.ImageUnknown) },
+		"png.ScanPngHeader":       func(rs *mon.RS) { _, _ = png.ScanPngHeader(rs) },
+		"xmp.ParseXmp":            func(rs *mon.RS) { _, _ = xmp.ParseXmp(rs) },
+		"xmp.ParseXmp/bufio":      func(rs *mon.RS) { _, _ = xmp.ParseXmp(bufio.NewReaderSize(rs, 2048)) },
+		"xmp.ParseXmp/bufio4096":  func(rs *mon.RS) { _, _ = xmp.ParseXmp(bufio.NewReaderSize(rs, 4096)) },
+		"xmp.ParseXmp/bufio16384": func(rs *mon.RS) { _, _ = xmp.ParseXmp(bufio.NewReaderSize(rs, 16384)) },
+		"imagetype.Scan":          func(rs *mon.RS) { _, _ = imagetype.Scan(rs) },
+		"imagetype.ScanBuf":       func(rs *mon.RS) { _, _ = imagetype.ScanBuf(bufio.NewReaderSize(rs, 64)) },
+		"imagetype.ReadAt":        func(rs *mon.RS) { _, _ = imagetype.ReadAt(rs) },
+	}
+	entryRaw = raw
 	return es
 }
 
